@@ -27,6 +27,12 @@ Definition add64 (a b : Z) : out Z := chk64 (a + b).
 Definition sub64 (a b : Z) : out Z := chk64 (a - b).
 Definition mul64 (a b : Z) : out Z := chk64 (a * b).
 Definition neg64 (a : Z) : out Z := chk64 (- a).
+(* i64::checked_add / checked_sub / checked_mul / checked_neg: None on overflow, never a panic *)
+Definition opt64 (z : Z) : option Z := if in_i64 z then Some z else None.
+Definition checked_add64 (a b : Z) : option Z := opt64 (a + b).
+Definition checked_sub64 (a b : Z) : option Z := opt64 (a - b).
+Definition checked_mul64 (a b : Z) : option Z := opt64 (a * b).
+Definition checked_neg64 (a : Z) : option Z := opt64 (- a).
 (* i64::min never fails *)
 Definition min64 (a b : Z) : Z := Z.min a b.
 
